@@ -41,12 +41,13 @@
 using namespace vf;
 
 // ------------------------------------------------------------------ listener / condition types
-struct CondSink { virtual bool onCond(int wid, bool hasArgs, int a, int b) = 0; virtual ~CondSink() {} };
+struct CondSink { virtual bool onCond(int wid, bool hasArgs, int a, int b) = 0; virtual void onCondState(int wid, int seen) = 0; virtual ~CondSink() {} };
 static CondSink * gCondSink = nullptr;
 
 struct L2 { TCallback cb; explicit L2(int id) : cb(id) {} void operator() (int a, int b) const { cb(a, b); } };
 struct L1 { TCallback cb; explicit L1(int id) : cb(id) {} void operator() (int a) const { cb(a); } };
-struct CondA { int wid; bool operator() (int a, int b) const { return gCondSink ? gCondSink->onCond(wid, true, a, b) : false; } };
+// CondA keeps state of its own (how often it was evaluated): the remover must evaluate the condition object it STORES, every time
+struct CondA { int wid; mutable int seen; bool operator() (int a, int b) const { ++seen; if(gCondSink) gCondSink->onCondState(wid, seen); return gCondSink ? gCondSink->onCond(wid, true, a, b) : false; } };
 // callable with the trigger's arguments AND with none (default arguments): the statement says "with the trigger's arguments if it accepts them"
 struct CondB { int wid; bool operator() (int a = -12345, int b = -12345) const { return gCondSink ? gCondSink->onCond(wid, true, a, b) : false; } };
 struct CondN { int wid; bool operator() () const { return gCondSink ? gCondSink->onCond(wid, false, 0, 0) : false; } };
@@ -301,7 +302,7 @@ struct World : CallbackSink, CondSink
 			sc += n.tail ? "1*" : "0*";
 			what = std::string("ConditionalRemover") + (persistent ? "(kept)" : "(temporary)") + (kind == NK_COND_ARGS ? " cond(a,b)" : " cond()") + " script=" + sc;
 			if(kind == NK_COND_ARGS && cbid % 3 == 0) { CondB c; c.wid = cbid; h = ad.addCond(key, where, L2(cbid), hb, c, persistent); count("wrapped.conditional.callable_both_ways"); }
-			else if(kind == NK_COND_ARGS) { CondA c; c.wid = cbid; h = ad.addCond(key, where, L2(cbid), hb, c, persistent); }
+			else if(kind == NK_COND_ARGS) { CondA c; c.wid = cbid; c.seen = 0; h = ad.addCond(key, where, L2(cbid), hb, c, persistent); }
 			else { CondN c; c.wid = cbid; h = ad.addCond(key, where, L2(cbid), hb, c, persistent); }
 			count(kind == NK_COND_ARGS ? "wrapped.conditional.with_args" : "wrapped.conditional.no_args");
 		}
@@ -404,6 +405,14 @@ struct World : CallbackSink, CondSink
 		else { log("queued event k" + num(keyVal(e.key)) + " (" + num(e.a) + ") has no listener"); if(listHasDetached[e.key * NPROTO]) { nontrivial = true; count("triggers.after_a_detachment_in_that_list"); } }
 	}
 
+	// a condition that counts its own evaluations: the count kept inside the stored condition object must advance with every evaluation
+	void onCondState(int wid, int seen) override {
+		if(dead) return;
+		const int uid = uidOfCb(wid);
+		if(uid < 0) return;
+		if(seen != nodes[uid].evals + 1) fail("conditional:state-kept-in-the-condition-object-is-lost", "condition of " + nname(uid) + " sees its own evaluation count " + num(seen) + " at evaluation #" + num(nodes[uid].evals + 1) + " (a fresh copy of the condition evaluated each time?)");
+		else count("condition_state_checked");
+	}
 	// ---------- the library evaluates a condition
 	bool onCond(int wid, bool hasArgs, int a, int b) override {
 		if(dead) return false;
